@@ -198,19 +198,39 @@ Inductive hook_outcome :=
 | HReturn | HOverride (v : bytes) | HAuthent | HAuthor | HDenied | HNotFound
 | HGattError (req h err : option N) | HRaiseOther.
 
+(** What a hook that does not raise hands back with a plain [return]: nothing, bytes (of any
+    length) or some other object.  The server ignores it (the theorems hold for all of them). *)
+Inductive ret_val := RNone | RBytes (v : bytes) | ROther.
+Record hook_rets := mkRets {
+  rr_read : ret_val; rr_write : ret_val; rr_written : ret_val; rr_written2 : ret_val;
+  rr_sub : ret_val; rr_unsub : ret_val; rr_notif : ret_val; rr_indic : ret_val }.
+Definition no_rets : hook_rets := mkRets RNone RNone RNone RNone RNone RNone RNone RNone.
+
+(** What a request-time hook may do before it returns / raises: assign the value of a
+    characteristic of the profile ([Some (d, v)]: [profile.<characteristic declared at d>.value = v]),
+    the same one or another one, subscribed or not. *)
+Record hook_acts := mkActs {
+  ha_read : option (N * bytes); ha_write : option (N * bytes); ha_written : option (N * bytes);
+  ha_written2 : option (N * bytes); ha_sub : option (N * bytes); ha_unsub : option (N * bytes) }.
+Definition no_acts : hook_acts := mkActs None None None None None None.
+
 (** One outcome per hook call site of a step ([h_written2] = the second call of the
-    'written' hook, made from the [except HookReturnValue] clause). *)
+    'written' hook, made from the [except HookReturnValue] clause), the characteristic updates the
+    request-time hooks perform, and the values the hooks return. *)
 Record hook_oracle := mkHooks {
   h_read : hook_outcome; h_write : hook_outcome; h_written : hook_outcome; h_written2 : hook_outcome;
-  h_sub : hook_outcome; h_unsub : hook_outcome; h_notif : hook_outcome; h_indic : hook_outcome }.
+  h_sub : hook_outcome; h_unsub : hook_outcome; h_notif : hook_outcome; h_indic : hook_outcome;
+  h_acts : hook_acts; h_rets : hook_rets }.
 
-Definition no_hooks : hook_oracle := mkHooks HReturn HReturn HReturn HReturn HReturn HReturn HReturn HReturn.
+Definition no_hooks : hook_oracle :=
+  mkHooks HReturn HReturn HReturn HReturn HReturn HReturn HReturn HReturn no_acts no_rets.
 
-(** Python exceptions leaving a handler *)
-Inductive exn := ExAttribute | ExType | ExIndex | ExHookOther | ExHookReturn | ExDeadlock.
+(** Python exceptions leaving a handler; [ExHook o] = what the hook raised ([HRaiseOther]: its own
+    exception, otherwise the HookReturn* exception of [o]); [ExDeadlock] = the thread blocks for
+    ever on a lock that is held. *)
+Inductive exn := ExAttribute | ExType | ExIndex | ExHook (o : hook_outcome) | ExDeadlock.
 
-Definition exn_of_hook (o : hook_outcome) : exn :=
-  match o with HRaiseOther => ExHookOther | _ => ExHookReturn end.
+Definition exn_of_hook (o : hook_outcome) : exn := ExHook o.
 
 (** * Variants of the code *)
 Record variant := mkVariant {
@@ -324,6 +344,132 @@ Definition write_denied (st : state) (h nf : N) : option N :=
 Definition trunc (n : N) (v : bytes) : bytes := firstn (N.to_nat n) v.
 Definition bslice (off n : N) (v : bytes) : bytes := firstn (N.to_nat n) (skipn (N.to_nat off) v).
 
+
+(** * Characteristic updates made by the application or by a hook *)
+
+Definition un_le16_2 (b : bytes) : option N :=
+  match b with [x; y] => Some (x + 256 * y) | _ => None end.
+
+Definition remove_sub (h : N) (l : list N) : list N :=
+  (* list.remove: first occurrence *)
+  (fix go (l : list N) := match l with [] => [] | x :: r => if x =? h then r else x :: go r end) l.
+Definition add_sub (h : N) (l : list N) : list N :=
+  if existsb (N.eqb h) l then l else l ++ [h].
+
+(** owning declaration of a descriptor = the nearest declaration below it *)
+Fixpoint owner_decl (h : N) (db : db_t) (cur : option N) : option N :=
+  match db with
+  | [] => None
+  | a :: r => if a_handle a =? h then cur
+              else owner_decl h r (match a_kind a with KDecl => Some (a_handle a) | _ => cur end)
+  end.
+
+Definition find_inst (st : state) (id : N) : option inst :=
+  if i_id (st_cur st) =? id then Some (st_cur st)
+  else find (fun i => i_id i =? id) (st_dead st).
+
+(** the procedure lock of instance [id] *)
+Definition set_proc (st : state) (id : N) (b : bool) : state :=
+  if i_id (st_cur st) =? id then with_cur st (with_proc (st_cur st) b)
+  else mkState (st_db st) (st_enc st) (st_auth st) (st_connected st) (st_cur st)
+               (map (fun j => if i_id j =? id then with_proc j b else j) (st_dead st)).
+
+(** [GattServer.notify] / [indicate] of instance [id] (under proclock, no txlock) *)
+Definition notify_via (st : state) (id : N) (o : hook_outcome) (mk : N -> bytes -> att_pdu)
+           (vh : N) (val : bytes) : hres :=
+  match find_inst st id with
+  | None => done st []
+  | Some i =>
+      if i_proc_locked i then raise st [] ExDeadlock
+      else
+        let m3 := i_mtu i - 3 in
+        match o with
+        | HReturn => done st [mk vh (trunc m3 val)]
+        | HOverride x => done st [mk vh (trunc m3 x)]
+        | _ => raise (set_proc st id true) [] (exn_of_hook o)   (* proclock stays held *)
+        end
+  end.
+
+(** [Characteristic.get_client_config]: the first CCCD among the characteristic's descriptors
+    (the object is identified by its handle) and its configuration *)
+Definition cccd_handle (db : db_t) (d : N) : option N :=
+  option_map a_handle
+    (find (fun a => kind_eqb (a_kind a) KCccd
+                    && match owner_decl (a_handle a) db None with Some o => o =? d | None => false end) db).
+Definition cfg_of (db : db_t) (d : N) : option N :=
+  match cccd_handle db d with
+  | Some hc => match lookup hc db with Some x => un_le16_2 (a_value x) | None => None end
+  | None => None
+  end.
+
+(** [Characteristic.value = v] *)
+Definition app_set (st : state) (d : N) (val : bytes) (hk : hook_oracle) : hres :=
+  match lookup d (st_db st) with
+  | Some c =>
+      match a_kind c with
+      | KDecl =>
+          (* self.__value.value = value : the characteristic's value attribute *)
+          let db1 := match lookup (d + 1) (st_db st) with
+                     | Some v => if kind_eqb (a_kind v) KValue
+                                 then update (d + 1) (fun a => set_value a val) (st_db st) else st_db st
+                     | None => st_db st
+                     end in
+          let st1 := with_db st db1 in
+          let cfg := cfg_of db1 d in
+          let is := fun n => match cfg with Some k => k =? n | None => false end in
+          if has (a_props c) P_NOTIFY && is 1 &&
+             match a_ncb c with Some _ => true | None => false end then
+            match a_ncb c with
+            | Some id => notify_via st1 id (h_notif hk) PNotification (d + 1) val
+            | None => done st1 []
+            end
+          else if has (a_props c) P_INDICATE && is 2 &&
+                  match a_icb c with Some _ => true | None => false end then
+            match a_icb c with
+            | Some id => notify_via st1 id (h_indic hk) PIndication (d + 1) val
+            | None => done st1 []
+            end
+          else done st1 []
+      | _ => done st []
+      end
+  | None => done st []
+  end.
+
+(** A hook call site: the hook first performs its characteristic update (if any) -- which may
+    send a notification / indication right in the middle of the request, may block for ever on
+    the procedure lock ([HHang]) and lets the exception of the notification hook propagate --
+    then returns or raises. *)
+Inductive hook_result := HOut (o : hook_outcome) | HHang.
+
+Definition hook_act (st : state) (hk : hook_oracle) (act : option (N * bytes)) (o : hook_outcome)
+  : state * list att_pdu * hook_result :=
+  match act with
+  | None => (st, [], HOut o)
+  | Some (d, v) =>
+      let r := app_set st d v hk in
+      (r_state r, r_out r,
+       match r_exc r with
+       | None => HOut o
+       | Some (ExHook o') => HOut o'
+       | Some _ => HHang
+       end)
+  end.
+
+Definition prepend (pd : list att_pdu) (r : hres) : hres := mkRes (r_state r) (pd ++ r_out r) (r_exc r).
+
+(** a hook whose exceptions nothing catches at this place *)
+Definition post_hook (st : state) (hk : hook_oracle) (act : option (N * bytes)) (o : hook_outcome)
+           (out : list att_pdu) : hres :=
+  let '(st1, pd, res) := hook_act st hk act o in
+  match res with
+  | HHang => raise st1 (out ++ pd) ExDeadlock
+  | HOut HReturn => done st1 (out ++ pd)
+  | HOut o' => raise st1 (out ++ pd) (ExHook o')
+  end.
+
+Definition val_at (st : state) (h : N) : bytes :=
+  match lookup h (st_db st) with Some a => a_value a | None => [] end.
+
 (** * Handlers (bodies, without the lock) *)
 
 (** [on_find_info_request] *)
@@ -380,12 +526,14 @@ Definition h_fbtv (v : variant) (st : state) (s e ty : N) (v_req : bytes) : hres
   end.
 
 (** read hook + answer on a readable characteristic value *)
-Definition read_value_answer (st : state) (op op_author h : N) (o : hook_outcome)
-           (mk : bytes -> att_pdu) (normal override : bytes) : hres :=
-  match o with
-  | HReturn => done st [mk normal]
-  | HOverride _ => done st [mk override]
-  | _ => hook_error st op op_author h o
+Definition read_value_answer (st : state) (hk : hook_oracle) (op op_author h : N)
+           (mk : bytes -> att_pdu) (normal : state -> bytes) : hres :=
+  let '(st1, pd, res) := hook_act st hk (ha_read (h_acts hk)) (h_read hk) in
+  match res with
+  | HHang => raise st1 pd ExDeadlock
+  | HOut HReturn => done st1 (pd ++ [mk (normal st1)])
+  | HOut (HOverride x) => done st1 (pd ++ [mk (trunc (mtu_of st - 1) x)])
+  | HOut o => prepend pd (hook_error st1 op op_author h o)
   end.
 
 (** [on_read_request] *)
@@ -401,9 +549,7 @@ Definition h_read_req (v : variant) (st : state) (hk : hook_oracle) (h : N) : hr
             match read_denied st h with
             | Some code => err st OP_READ h code
             | None =>
-                read_value_answer st OP_READ OP_READ h (h_read hk) PReadRsp
-                  (trunc m1 (a_value a))
-                  (match h_read hk with HOverride x => trunc m1 x | _ => [] end)
+                read_value_answer st hk OP_READ OP_READ h PReadRsp (fun s => trunc m1 (val_at s h))
             end
         | KDecl => done st [PReadRsp (payload a)]
         | KPrimary => done st [PReadRsp (payload a)]
@@ -414,11 +560,10 @@ Definition h_read_req (v : variant) (st : state) (hk : hook_oracle) (h : N) : hr
     end.
 
 (** [on_read_blob_request] *)
-Definition blob_value_branch (st : state) (hk : hook_oracle) (h off : N) (a : attr) : hres :=
+Definition blob_value_branch (st : state) (hk : hook_oracle) (h off : N) : hres :=
   let m1 := mtu_of st - 1 in
-  read_value_answer st OP_BLOB OP_READ h (h_read hk) PReadBlobRsp
-    (bslice off m1 (a_value a))
-    (match h_read hk with HOverride x => trunc m1 x | _ => [] end).
+  (* the offset was compared with the length BEFORE the hook ran; the slice is taken after it *)
+  read_value_answer st hk OP_BLOB OP_READ h PReadBlobRsp (fun s => bslice off m1 (val_at s h)).
 
 Definition h_read_blob (v : variant) (st : state) (hk : hook_oracle) (h off : N) : hres :=
   if h =? 0 then err st OP_BLOB h E_INVALID_HANDLE
@@ -435,7 +580,7 @@ Definition h_read_blob (v : variant) (st : state) (hk : hook_oracle) (h off : N)
               let val := match a_kind a with KValue | KCccd | KDesc => a_value a | _ => payload a end in
               if off <? nlen val then
                 match a_kind a with
-                | KValue => blob_value_branch st hk h off a
+                | KValue => blob_value_branch st hk h off
                 | _ => done st [PReadBlobRsp (bslice off m1 val)]
                 end
               else if off =? nlen val then done st [PReadBlobRsp []]
@@ -448,7 +593,7 @@ Definition h_read_blob (v : variant) (st : state) (hk : hook_oracle) (h off : N)
             | KValue =>
                 match read_denied st h with
                 | Some code => err st OP_BLOB h code
-                | None => blob_value_branch st hk h off a
+                | None => blob_value_branch st hk h off
                 end
             | KCccd | KDesc => done st [PReadBlobRsp (bslice off m1 (a_value a))]
             | _ => done st []
@@ -459,23 +604,6 @@ Definition h_read_blob (v : variant) (st : state) (hk : hook_oracle) (h off : N)
 
 (** CCCD handling shared by write request / write command.
     [record] : append to [__subscribed_characs] on subscription. *)
-Definition un_le16_2 (b : bytes) : option N :=
-  match b with [x; y] => Some (x + 256 * y) | _ => None end.
-
-Definition remove_sub (h : N) (l : list N) : list N :=
-  (* list.remove: first occurrence *)
-  (fix go (l : list N) := match l with [] => [] | x :: r => if x =? h then r else x :: go r end) l.
-Definition add_sub (h : N) (l : list N) : list N :=
-  if existsb (N.eqb h) l then l else l ++ [h].
-
-(** owning declaration of a descriptor = the nearest declaration below it *)
-Fixpoint owner_decl (h : N) (db : db_t) (cur : option N) : option N :=
-  match db with
-  | [] => None
-  | a :: r => if a_handle a =? h then cur
-              else owner_decl h r (match a_kind a with KDecl => Some (a_handle a) | _ => cur end)
-  end.
-
 Definition cccd_effects (st : state) (hk : hook_oracle) (h : N) (newv : bytes) (record : bool)
            (out : list att_pdu) : hres :=
   let db1 := update h (fun a => set_value a newv) (st_db st) in
@@ -486,15 +614,15 @@ Definition cccd_effects (st : state) (hk : hook_oracle) (h : N) (newv : bytes) (
       if cfg =? 1 then
         let st2 := with_db st1 (update d (fun c => set_cbs c me (a_icb c)) db1) in
         let st3 := if record then with_subs st2 (add_sub d (i_subscribed (st_cur st2))) else st2 in
-        match h_sub hk with HReturn => done st3 out | o => raise st3 out (exn_of_hook o) end
+        post_hook st3 hk (ha_sub (h_acts hk)) (h_sub hk) out
       else if cfg =? 2 then
         let st2 := with_db st1 (update d (fun c => set_cbs c (a_ncb c) me) db1) in
         let st3 := if record then with_subs st2 (add_sub d (i_subscribed (st_cur st2))) else st2 in
-        match h_sub hk with HReturn => done st3 out | o => raise st3 out (exn_of_hook o) end
+        post_hook st3 hk (ha_sub (h_acts hk)) (h_sub hk) out
       else if cfg =? 0 then
         let st2 := with_db st1 (update d (fun c => set_cbs c None None) db1) in
         let st3 := with_subs st2 (remove_sub d (i_subscribed (st_cur st2))) in
-        match h_unsub hk with HReturn => done st3 out | o => raise st3 out (exn_of_hook o) end
+        post_hook st3 hk (ha_unsub (h_acts hk)) (h_unsub hk) out
       else done st1 out
   | _, _ => raise st1 out ExAttribute   (* struct.error / no characteristic: excluded by wf_db *)
   end.
@@ -503,31 +631,28 @@ Definition cccd_effects (st : state) (hk : hook_oracle) (h : N) (newv : bytes) (
     [rsp] = [[PWriteRsp]] for a request, [[]] for a command. *)
 Definition write_value (st : state) (hk : hook_oracle) (op op_author h : N)
            (val : bytes) (rsp : list att_pdu) : hres :=
-  let store (x : bytes) := with_db st (update h (fun a => set_value a x) (st_db st)) in
-  match h_write hk with
-  | HReturn =>
+  let store (s : state) (x : bytes) := with_db s (update h (fun a => set_value a x) (st_db s)) in
+  let '(st1, pd1, res1) := hook_act st hk (ha_write (h_acts hk)) (h_write hk) in
+  match res1 with
+  | HHang => raise st1 pd1 ExDeadlock
+  | HOut HReturn =>
       (* value stored, response sent, then the 'written' hook -- still inside the try block *)
-      let st1 := store val in
-      match h_written hk with
-      | HReturn => done st1 rsp
-      | HOverride x =>
+      let st2 := store st1 val in
+      let '(st3, pd3, res3) := hook_act st2 hk (ha_written (h_acts hk)) (h_written hk) in
+      let out3 := pd1 ++ rsp ++ pd3 in
+      match res3 with
+      | HHang => raise st3 out3 ExDeadlock
+      | HOut HReturn => done st3 out3
+      | HOut (HOverride x) =>
           (* except HookReturnValue: store, respond AGAIN, call 'written' again (exceptions propagate) *)
-          let st2 := with_db st1 (update h (fun a => set_value a x) (st_db st1)) in
-          match h_written2 hk with
-          | HReturn => done st2 (rsp ++ rsp)
-          | o => raise st2 (rsp ++ rsp) (exn_of_hook o)
-          end
-      | HRaiseOther => raise st1 rsp ExHookOther
-      | o => let r := hook_error st1 op op_author h o in mkRes (r_state r) (rsp ++ r_out r) (r_exc r)
+          post_hook (store st3 x) hk (ha_written2 (h_acts hk)) (h_written2 hk) (out3 ++ rsp)
+      | HOut HRaiseOther => raise st3 out3 (ExHook HRaiseOther)
+      | HOut o => prepend out3 (hook_error st3 op op_author h o)
       end
-  | HOverride x =>
+  | HOut (HOverride x) =>
       (* except HookReturnValue: store, respond, call 'written' (exceptions propagate) *)
-      let st1 := store x in
-      match h_written hk with
-      | HReturn => done st1 rsp
-      | o => raise st1 rsp (exn_of_hook o)
-      end
-  | o => hook_error st op op_author h o
+      post_hook (store st1 x) hk (ha_written (h_acts hk)) (h_written hk) (pd1 ++ rsp)
+  | HOut o => prepend pd1 (hook_error st1 op op_author h o)
   end.
 
 Definition h_write_gen (v : variant) (st : state) (hk : hook_oracle) (is_cmd : bool) (h : N) (val : bytes) : hres :=
@@ -708,6 +833,7 @@ Definition locked (v : variant) (st : state) (body : state -> hres) : hres :=
     let r := body (with_lock st true) in
     match r_exc r with
     | None => mkRes (with_lock (r_state r) false) (r_out r) None
+    | Some ExDeadlock => mkRes (r_state r) (r_out r) (Some ExDeadlock)   (* blocked inside: never returns *)
     | Some e => mkRes (with_lock (r_state r) (negb (fx_finally v))) (r_out r) (Some e)
     end.
 
@@ -753,76 +879,6 @@ Inductive event :=
 | EvAppSet (decl : N) (v : bytes) (hk : hook_oracle)   (* application: charac.value = v *)
 | EvDisc                                 (* LinkLayer.on_disconnect *)
 | EvConn.                                (* LinkLayer.on_connect: fresh L2CAP/ATT/GATT instances *)
-
-Definition find_inst (st : state) (id : N) : option inst :=
-  if i_id (st_cur st) =? id then Some (st_cur st)
-  else find (fun i => i_id i =? id) (st_dead st).
-
-Definition put_inst (st : state) (i : inst) : state :=
-  if i_id (st_cur st) =? i_id i then with_cur st i
-  else mkState (st_db st) (st_enc st) (st_auth st) (st_connected st) (st_cur st)
-               (map (fun j => if i_id j =? i_id i then i else j) (st_dead st)).
-
-(** [GattServer.notify] / [indicate] of instance [id] (under proclock, no txlock) *)
-Definition notify_via (st : state) (id : N) (o : hook_outcome) (mk : N -> bytes -> att_pdu)
-           (vh : N) (val : bytes) : hres :=
-  match find_inst st id with
-  | None => done st []
-  | Some i =>
-      if i_proc_locked i then raise st [] ExDeadlock
-      else
-        let m3 := i_mtu i - 3 in
-        match o with
-        | HReturn => done st [mk vh (trunc m3 val)]
-        | HOverride x => done st [mk vh (trunc m3 x)]
-        | _ => raise (put_inst st (with_proc i true)) [] (exn_of_hook o)   (* proclock stays held *)
-        end
-  end.
-
-(** [Characteristic.get_client_config]: the first CCCD among the characteristic's descriptors
-    (the object is identified by its handle) and its configuration *)
-Definition cccd_handle (db : db_t) (d : N) : option N :=
-  option_map a_handle
-    (find (fun a => kind_eqb (a_kind a) KCccd
-                    && match owner_decl (a_handle a) db None with Some o => o =? d | None => false end) db).
-Definition cfg_of (db : db_t) (d : N) : option N :=
-  match cccd_handle db d with
-  | Some hc => match lookup hc db with Some x => un_le16_2 (a_value x) | None => None end
-  | None => None
-  end.
-
-(** [Characteristic.value = v] *)
-Definition app_set (st : state) (d : N) (val : bytes) (hk : hook_oracle) : hres :=
-  match lookup d (st_db st) with
-  | Some c =>
-      match a_kind c with
-      | KDecl =>
-          (* self.__value.value = value : the characteristic's value attribute *)
-          let db1 := match lookup (d + 1) (st_db st) with
-                     | Some v => if kind_eqb (a_kind v) KValue
-                                 then update (d + 1) (fun a => set_value a val) (st_db st) else st_db st
-                     | None => st_db st
-                     end in
-          let st1 := with_db st db1 in
-          let cfg := cfg_of db1 d in
-          let is := fun n => match cfg with Some k => k =? n | None => false end in
-          if has (a_props c) P_NOTIFY && is 1 &&
-             match a_ncb c with Some _ => true | None => false end then
-            match a_ncb c with
-            | Some id => notify_via st1 id (h_notif hk) PNotification (d + 1) val
-            | None => done st1 []
-            end
-          else if has (a_props c) P_INDICATE && is 2 &&
-                  match a_icb c with Some _ => true | None => false end then
-            match a_icb c with
-            | Some id => notify_via st1 id (h_indic hk) PIndication (d + 1) val
-            | None => done st1 []
-            end
-          else done st1 []
-      | _ => done st []
-      end
-  | None => done st []
-  end.
 
 (** [GattServer.on_terminated] *)
 Definition terminated (st : state) : state :=
@@ -923,9 +979,38 @@ Definition wf_outcome (o : hook_outcome) : bool :=
       && match e with Some x => x <? 256 | None => true end
   | _ => true
   end.
+Definition wf_act (a : option (N * bytes)) : bool :=
+  match a with Some (_, v) => wf_bytes v | None => true end.
+Definition wf_acts (a : hook_acts) : bool :=
+  wf_act (ha_read a) && wf_act (ha_write a) && wf_act (ha_written a) && wf_act (ha_written2 a)
+  && wf_act (ha_sub a) && wf_act (ha_unsub a).
 Definition wf_hooks (hk : hook_oracle) : bool :=
   wf_outcome (h_read hk) && wf_outcome (h_write hk) && wf_outcome (h_written hk) && wf_outcome (h_written2 hk)
-  && wf_outcome (h_sub hk) && wf_outcome (h_unsub hk) && wf_outcome (h_notif hk) && wf_outcome (h_indic hk).
+  && wf_outcome (h_sub hk) && wf_outcome (h_unsub hk) && wf_outcome (h_notif hk) && wf_outcome (h_indic hk)
+  && wf_acts (h_acts hk).
+
+(** the notification / indication hooks ([Profile.on_notification/on_indication]) return or
+    override the value; anything else they raise leaves the GATT procedure lock held (proclock
+    only releases it for AttError / GattTimeoutException) *)
+Definition returns_or_overrides (o : hook_outcome) : bool :=
+  match o with HReturn | HOverride _ => true | _ => false end.
+Definition notif_hooks_return (hk : hook_oracle) : bool :=
+  returns_or_overrides (h_notif hk) && returns_or_overrides (h_indic hk).
+
+(** no GATT instance has its procedure lock held *)
+Definition proc_free (st : state) : bool :=
+  negb (i_proc_locked (st_cur st)) && forallb (fun i => negb (i_proc_locked i)) (st_dead st).
+
+(** responses (everything but notifications / indications) *)
+Definition is_rsp (p : att_pdu) : bool :=
+  match p with PNotification _ _ | PIndication _ _ => false | _ => true end.
+
+(** a response fits the MTU in force; a notification / indication sent from inside a hook fits the
+    MTU (>= 23) of the GATT instance that sends it *)
+Definition inst_mtus (st : state) : list N := map i_mtu (st_cur st :: st_dead st).
+Definition pdu_fits (st : state) (p : att_pdu) : bool :=
+  (att_size p <=? mtu_of st)
+  || (negb (is_rsp p) && existsb (fun m => att_size p <=? N.max 23 m) (inst_mtus st)).
 
 Definition raises_other (o : hook_outcome) : bool := match o with HRaiseOther => true | _ => false end.
 (** hooks that return, override or answer with a HookReturn* error (never raise anything else) *)
@@ -1022,7 +1107,7 @@ Fixpoint pdus_eqb (ps : list att_pdu) (obs : list bytes) : bool :=
 Definition exn_code (e : option exn) : N :=
   match e with
   | None => 0 | Some ExAttribute => 1 | Some ExType => 2 | Some ExIndex => 3
-  | Some ExHookOther => 4 | Some ExHookReturn => 5 | Some ExDeadlock => 6
+  | Some (ExHook HRaiseOther) => 4 | Some (ExHook _) => 5 | Some ExDeadlock => 6
   end.
 
 Definition values_match (db : db_t) (vals : list (N * bytes)) : bool :=
@@ -1096,13 +1181,19 @@ Fixpoint every_step (P : state -> att_request -> hook_oracle -> Prop) (st : stat
 Definition step_ok (st : state) (r : att_request) (hk : hook_oracle) : Prop :=
   let st' := fst (server_step st r hk) in
   let out := snd (server_step st r hk) in
-  tx_locked st' = false
-  /\ Forall (fun p => att_size p <= mtu_of st) out
+  (tx_locked st = false -> proc_free st = true -> notif_hooks_return hk = true ->
+     tx_locked st' = false /\ proc_free st' = true)
+  /\ Forall (fun p => pdu_fits st p = true) out
   /\ (forall s e, req_range r = Some (s, e) -> Forall (fun p => list_rsp_ok s e p = true) out)
-  /\ (hooks_behave hk = true -> is_return (h_written hk) = true ->
-      (is_request r = true -> length out = 1%nat)
-      /\ (is_command r = true -> (length out <= 1)%nat)
-      /\ (is_indication r = true -> out = [PConfirmation])).
+  /\ (tx_locked st = false -> proc_free st = true -> notif_hooks_return hk = true ->
+      hooks_behave hk = true -> is_return (h_written hk) = true ->
+      let rsp := filter is_rsp out in
+      (is_request r = true -> length rsp = 1%nat)
+      /\ (is_command r = true -> (length rsp <= 1)%nat)
+      /\ (is_indication r = true -> rsp = [PConfirmation])).
+
+(** every notification / indication hook of the session returns or overrides *)
+Definition quiet_notif (s : session) : Prop := Forall (fun x => notif_hooks_return (snd x) = true) s.
 
 (** * A small concrete database (witnesses, non-vacuity) *)
 Definition demo_db : db_t := [
